@@ -504,13 +504,19 @@ package keeper
 //@     && vestingTypes.VestingTypes[i].LockupPeriod % 1000000000 == 0 && vestingTypes.VestingTypes[i].VestingPeriod % 1000000000 == 0
 //@ pred distinctTypeNames(vts) = forall i: int, j: int :: {vts[i], vts[j]} 0 <= i && i < j && j < len(vts) ==> vts[i].Name != vts[j].Name
 //@ func (k Keeper) SetVestingTypes(ctx, vestingTypes)
-//@   trusted
 //@   requires distinctTypeNames(vestingTypes.VestingTypes)
 //@   requires forall i: int :: {vestingTypes.VestingTypes[i]} 0 <= i && i < len(vestingTypes.VestingTypes) ==> vestingTypes.VestingTypes[i] != nil
 //@   modifies $vtFound, $vtFree, $vtLockup, $vtVesting
 //@   ensures forall i: int :: {vestingTypes.VestingTypes[i]} 0 <= i && i < len(vestingTypes.VestingTypes) ==>
 //@     $vtFound[vestingTypes.VestingTypes[i].Name] && $vtLockup[vestingTypes.VestingTypes[i].Name] == vestingTypes.VestingTypes[i].LockupPeriod
 //@     && $vtVesting[vestingTypes.VestingTypes[i].Name] == vestingTypes.VestingTypes[i].VestingPeriod && $vtFree[vestingTypes.VestingTypes[i].Name] == vestingTypes.VestingTypes[i].Free
+//@   prop C12 C05 C20
+//@ // verified against the single write below: the names are distinct, so a later write leaves an earlier element's entry alone
+//@ loop Keeper.SetVestingTypes#1
+//@   invariant 0 <= \i && \i <= len(vestingTypes.VestingTypes)
+//@   invariant forall j: int :: {vestingTypes.VestingTypes[j]} 0 <= j && j < \i ==>
+//@     $vtFound[vestingTypes.VestingTypes[j].Name] && $vtLockup[vestingTypes.VestingTypes[j].Name] == vestingTypes.VestingTypes[j].LockupPeriod
+//@     && $vtVesting[vestingTypes.VestingTypes[j].Name] == vestingTypes.VestingTypes[j].VestingPeriod && $vtFree[vestingTypes.VestingTypes[j].Name] == vestingTypes.VestingTypes[j].Free
 //@ func (k Keeper) SetVestingType(ctx, vestingType)
 //@   trusted
 //@   modifies $vtFound, $vtFree, $vtLockup, $vtVesting
